@@ -241,6 +241,23 @@ impl InvalidProof {
             kind: InvalidProofKind::ZeroTreeSize,
         }
     }
+
+    fn even_tree_size(tree_size: NonZeroUsize) -> Self {
+        Self {
+            kind: InvalidProofKind::EvenTreeSize {
+                tree_size,
+            },
+        }
+    }
+
+    fn audit_path_too_long(actual: usize, max: usize) -> Self {
+        Self {
+            kind: InvalidProofKind::AuditPathTooLong {
+                actual,
+                max,
+            },
+        }
+    }
 }
 
 impl std::fmt::Display for InvalidProof {
@@ -265,6 +282,13 @@ enum InvalidProofKind {
         tree_size: NonZeroUsize,
     },
     ZeroTreeSize,
+    EvenTreeSize {
+        tree_size: NonZeroUsize,
+    },
+    AuditPathTooLong {
+        actual: usize,
+        max: usize,
+    },
 }
 
 impl std::fmt::Display for InvalidProofKind {
@@ -278,14 +302,23 @@ impl std::fmt::Display for InvalidProofKind {
             InvalidProofKind::LeafIndexOutsideTree {
                 leaf_index,
                 tree_size,
-            } => {
-                let tree_index = crate::leaf_index_to_tree_index(*leaf_index);
-                f.write_fmt(format_args!(
-                    "leaf index {leaf_index} corresponding to tree index {tree_index} exceeds \
-                     tree of size {tree_size}"
-                ))
-            }
+            } => f.write_fmt(format_args!(
+                "leaf index {leaf_index} corresponding to tree index 2 * {leaf_index} exceeds \
+                 tree of size {tree_size}"
+            )),
             InvalidProofKind::ZeroTreeSize => f.pad("proof is undefined for trees of size zero"),
+            InvalidProofKind::EvenTreeSize {
+                tree_size,
+            } => f.write_fmt(format_args!(
+                "a tree with `n` leaves has `2n - 1` nodes, but the tree size was {tree_size}"
+            )),
+            InvalidProofKind::AuditPathTooLong {
+                actual,
+                max,
+            } => f.write_fmt(format_args!(
+                "audit path must contain at most {max} segments for the given leaf index and \
+                 tree size, but contained {actual}"
+            )),
         }
     }
 }
@@ -300,7 +333,7 @@ impl std::error::Error for InvalidProofKind {}
 /// ```rust
 /// use astria_merkle::Proof;
 /// let proof = Proof::unchecked()
-///     .audit_path(vec![42u8; 128])
+///     .audit_path(vec![42u8; 96])
 ///     .leaf_index(3)
 ///     .tree_size(15)
 ///     .try_into_proof()
@@ -323,13 +356,10 @@ impl UncheckedProof {
     ///
     /// The `audit_path` byte buffer's length must be a multiple of 32.
     ///
-    /// The builder does not currently verify that the length of the audit path
-    /// is plausible, i.e. that it has exactly the right number of segments
+    /// The audit path must not have more segments than are needed
     /// for walking the path from the leaf index to the root for a tree of
-    /// the given size.
-    ///
-    /// This will simply result in an incorrect Merkle Tree Hash being reconstructed
-    /// from the proof.
+    /// the given size. A shorter audit path will simply result in an incorrect
+    /// Merkle Tree Hash being reconstructed from the proof.
     #[must_use = "an unchecked proof must be turned into a checked proof to be useful"]
     pub fn audit_path(self, audit_path: Vec<u8>) -> Self {
         Self {
@@ -370,7 +400,9 @@ impl UncheckedProof {
     /// Returns the following errors conditions:
     /// + if the tree size is zero, see [`ProofBuilder::tree_size`];
     /// + if the leaf index falls outside the tree, see [`ProofBuilder::leaf_index`];
-    /// + if the audit path length is not a multiple of 32, see [`ProofBuilder::audit_path`].
+    /// + if the audit path length is not a multiple of 32, see [`ProofBuilder::audit_path`];
+    /// + if the tree size is even (a tree with `n` leaves has `2n - 1` nodes);
+    /// + if the audit path has more segments than there are levels between the leaf and the root.
     pub fn try_into_proof(self) -> Result<Proof, InvalidProof> {
         let Self {
             audit_path,
@@ -390,6 +422,19 @@ impl UncheckedProof {
             return Err(InvalidProof::audit_path_not_multiple_of_32(
                 audit_path.len(),
             ));
+        }
+
+        // A tree holding `n` leaves is made up of `2n - 1` nodes.
+        if tree_size.get() % 2 == 0 {
+            return Err(InvalidProof::even_tree_size(tree_size));
+        }
+
+        // Walking an audit path that has more segments than there are levels between the
+        // leaf and the root would leave the tree.
+        let actual = audit_path.len() / 32;
+        let max = crate::audit_path_len(leaf_index, tree_size.get());
+        if actual > max {
+            return Err(InvalidProof::audit_path_too_long(actual, max));
         }
 
         Ok(Proof {
